@@ -106,7 +106,7 @@ def exhaustive_pack_cases(algs, Bs, max_len, all_orders_upto=4):
     return res
 
 
-def random_cover_cases(rng, algs, count, Bs=(4, 6, 7, 12, 20, 100), nmax=14):
+def random_cover_cases(rng, algs, count, Bs=(4, 6, 7, 9, 12, 15, 20, 31, 100), nmax=14):
     res = []
     for alg in algs:
         for _ in range(count):
